@@ -13,9 +13,11 @@ ASSUMPTIONS = [
     "Ferrers-function definition (n<=12), the addition theorem (n<=360) and float128 central differences",
     "REF normal gravity = Somigliana-Pizzetti closed form (H&M 2-62, 2-73, 2-74, 2-78, 2-90, 2-92); validated in every run: Laplacian ~ 0, "
     "constant on the ellipsoid, |grad U| = Somigliana on the surface, J_n = Legendre projection of the potential (Gauss-Legendre, 96 nodes)",
-    "tolerances are K*eps*sum_n (n+1)|term| for values and K*eps*sum (n+2)|gradient term| for gradients (the sums' own condition numbers incl. the "
-    "effect of an eps-relative rounding of the position), K = 32 (value), 16 (gradient), 16 (models: field, rate, W, V, T, geoid...), 32 (normal gravity "
-    "constants; omega^2 parts x190 for |e'^2| >= 1/4 where the library's closed expressions for Q,H cancel); time interpolation weighted by |weights|",
+    "tolerances: value K*eps*sum[(n+1)|term| + |d term/d theta|] (the sum's own condition number incl. an eps-relative rounding of the point; the theta part "
+    "dominates next to a zero of P_nm), gradient K*eps*sum (n+2)|gradient term|; for the 1-/2-forms |term| uses |C|+|tau1 C1|+|tau2 C2|.  K = 64 (value), "
+    "32 (gradient), 64 (circle vs direct), 16 (models: B, dB/dt, V, W, g; time interpolation weighted by |weights|), 64 (T, delta, geoid height, anomaly: difference of two "
+    "fields, J_n parts e^2/3 and rotational term counted separately), 32 (normal gravity, eps * sum of |mass, quadrupole, centrifugal parts|; omega^2 parts x190 for "
+    "|e'^2| >= 1/4 where the library's closed expressions for Q, H cancel).  Observed maxima are in evidence.observed_max (typically 3-5x below K)",
     "points with sin(theta) < eps^1.5: the library evaluates at sin(theta) = eps^1.5 (source comment 'avoid the pole'); the change of REF under that displacement "
     "is added to the tolerance",
     "geoid height, spherical anomaly: the documented approximations (manual section gravitygeoid; Dg01 sign as in H&M 2-151c and the code, the manual has a sign typo)",
@@ -36,5 +38,7 @@ MANIFEST = dict(
          "times and ellipsoids; every returned value, gradient, field component, rate, potential, geoid height and derived constant is compared with an "
          "independent float128 evaluation of the defining expression within K*eps*(condition number of the sum).  Held = no monitor fired on the executions observed.",
     note="Trusts libquadmath and the reference formulas (self-validated in every run); near-axis displacement eps^1.5 of the library is allowed for; "
-         "known corner-case defects have their own narrow keys (coefficient-scaling underflow, denormal-p longitude).",
+         "genuine corner-case defects found have their own narrow keys, each restricted to its input regime: coefficient-scaling underflow (sum*2^-614 subnormal), "
+         "denormal-p longitude (hypot(x,y) < DBL_MIN), T omitting normal zonals above the model degree, Schmidt-normalised gravity files, J_n NaN for f = 0, "
+         "T-with-gradient when ModelMass != ReferenceMass (fixed in /repo).",
     design_ref="DESIGN.md#c19")
